@@ -131,3 +131,70 @@ def gen_row(rng: random.Random, uni: qgen.Universe, depth: int):
         inner = ", ".join(c[0] for c in cols)
         body = f"({inner},)" if (form == "tuple" and n == 1) else (f"({inner})" if form == "tuple" else f"[{inner}]")
     return f"ds.Select(lambda e: {body})", [[nm, c[1]] for nm, c in zip(names, cols)], uses
+
+
+# ------------------------------------------------------------------------------------------------
+# fragment F1 (coq/Model/FragQuery.v): an optional event filter, then Select(ROW) or
+# SelectMany(coll[.Where(p)].Select(PROW))
+# ------------------------------------------------------------------------------------------------
+def gen_prow(rng, var: str):
+    """-> (body source, names, [(name, pa sexp)])"""
+    n = rng.choice([1, 1, 2, 3])
+    cols = [gen_pa(rng, var, rng.choice([0, 1, 2])) for _ in range(n)]
+    form = rng.choice(["tuple", "list", "dict"]) if n > 1 else rng.choice(["bare", "dict", "tuple"])
+    if form == "bare":
+        names, body = ["col1"], cols[0][0]
+    elif form == "dict":
+        names = ["a", "bb", "c3x"][:n]
+        body = "{" + ", ".join(f'"{nm}": {c[0]}' for nm, c in zip(names, cols)) + "}"
+    else:
+        names = [f"col{i}" for i in range(n)]
+        inner = ", ".join(c[0] for c in cols)
+        body = f"({inner},)" if (form == "tuple" and n == 1) else (f"({inner})" if form == "tuple" else f"[{inner}]")
+    return body, [[nm, c[1]] for nm, c in zip(names, cols)]
+
+
+def gen_query_f1(rng: random.Random, uni: qgen.Universe, depth: int):
+    """-> (query source, query sexp, uses, kind)"""
+    uses: List[Tuple[str, str]] = []
+    nvar = [0]
+    src = "ds"
+    flt: List[Any] = []
+    if rng.random() < 0.55:
+        # the condition is a comparison between event-level expressions (the implementation refuses a filter
+        # that is not boolean-typed)
+        a, sa = gen_ex(rng, uni, "e", rng.choice([0, 1]), uses, nvar, top=True)
+        b, sb = gen_ex(rng, uni, "e", 0, uses, nvar)
+        op = rng.choice(["<", "<=", ">", ">=", "==", "!="])
+        cs, cx = f"{a} {op} {b}", ["bin", op, sa, sb]
+        src += f".Where(lambda e: {cs})"
+        flt = [cx]
+    if rng.random() < 0.5:
+        rsrc, cols, ruses = gen_row(rng, uni, depth)
+        # gen_row numbers its lambda variables from 1: rename to keep them distinct from the filter's
+        uses += ruses
+        body_src = rsrc[len("ds"):]
+        return src + body_src, [flt, ["row", cols]], uses, "select"
+    name = rng.choice(list(uni.colls))
+    bank = rng.choice(["b1", "b2"])
+    uses.append((name, bank))
+    ct, _ = uni.colls[name]
+    arrow = uni.backend == "atlas"
+    seq = f'e.{name}("{bank}")'
+    preds = []
+    if rng.random() < 0.5:
+        nvar[0] += 1
+        v = f"x{nvar[0]}"
+        p, sp = gen_pred(rng, v, rng.choice([0, 1, 2]))
+        seq += f".Where(lambda {v}: {p})"
+        preds.append(sp)
+    nvar[0] += 1
+    v = f"y{nvar[0]}"
+    body, cols = gen_prow(rng, v)
+    style = rng.choice(["inside", "inside", "outside"])
+    if style == "inside":
+        src += f".SelectMany(lambda e: {seq}.Select(lambda {v}: {body}))"
+    else:
+        # the same query with the element-level steps chained on the event stream
+        src += f".SelectMany(lambda e: {seq}).Select(lambda {v}: {body})"
+    return src, [flt, ["many", [name.lower(), ct, bank, arrow], preds, cols]], uses, "selectmany"
